@@ -6,7 +6,9 @@ PATCH="$(realpath "$1")"; TIER="${2:-quick}"; shift; shift || true
 IDS="${*:-C01 C02 C03 C04 C05 C06 C07 C08 C09 C10 C11 C12 C13 C14 C15 C16 C17 C18 C19}"
 cd /verif
 git -C /repo apply "$PATCH" || { echo "patch does not apply"; exit 2; }
-trap 'git -C /repo checkout -- . ; git -C /repo clean -fdq packages 2>/dev/null' EXIT
+cleanup() { git -C /repo checkout -- . ; git -C /repo clean -fdq packages 2>/dev/null; }
+trap cleanup EXIT
+trap 'cleanup; exit 143' INT TERM
 mkdir -p /tmp/mut_ev
 for id in $IDS; do
   out=$(./check $id --tier $TIER 2>&1); rc=$?
